@@ -15,6 +15,10 @@
 (*     `generate` held high from cycle 0.  step = [e, dt, idle_ok] over the *)
 (*     edges of send_signaling; idle_ok = drive_electrical_idle stayed high *)
 (*     since the previous event.                                            *)
+(*  Both kinds may contain e = "reset": the `ss` domain reset was pulsed   *)
+(*  (detector: while the line had been idle for a while; generator: at any  *)
+(*  time).  Afterwards the detector must have forgotten every earlier burst *)
+(*  and the generator must start a fresh, typical pattern.                  *)
 (*  kind "table": the timing constants found in the gateware module (ns).   *)
 (*     step = [bmin, btyp, bmax, rmin, rtyp, rmax, periodic]                *)
 (***************************************************************************)
@@ -43,7 +47,7 @@ FailDet(r) ==
     IF r.stray > 0 THEN "reported_between_edges"
     ELSE IF r.e = "rise" THEN Judge(RiseDetect(Pc, st, r.dt), r.det)
     ELSE IF r.e = "fall" THEN Judge(FallDetect(Pc, st, r.dt), r.det)
-    ELSE Judge(FALSE, r.det)
+    ELSE Judge(FALSE, r.det)          \* "end", and "reset" (the ss domain reset pulsed while the line is idle)
 
 GsInit == [since |-> 0, n |-> 0, high |-> FALSE]
 FailGen(r) ==
@@ -52,6 +56,8 @@ FailGen(r) ==
             (IF gs.n = 0 THEN (IF r.dt > GenStartLat THEN "generator_start_latency" ELSE "ok")
              ELSE IF ~GenPeriodOK(Pc, gs.since + r.dt) THEN "burst_period_not_typical" ELSE "ok")
     ELSE IF r.e = "fall" THEN (IF ~GenBurstOK(Pc, r.dt) THEN "burst_length_not_typical" ELSE "ok")
+    ELSE IF r.e = "reset" THEN          \* domain reset with `generate` still high: the pattern in progress is abandoned
+            (IF gs.high /\ r.dt > Pc.btyp THEN "burst_length_not_typical" ELSE "ok")
     ELSE (IF gs.high THEN (IF r.dt > Pc.btyp THEN "burst_length_not_typical" ELSE "ok")
           ELSE IF gs.n > 0 /\ gs.since + r.dt > Pc.rtyp + 1 THEN "burst_missing"
           ELSE IF gs.n = 0 /\ r.dt > GenStartLat THEN "generator_start_latency" ELSE "ok")
@@ -75,12 +81,16 @@ TNext == /\ status = "ok"
               CASE Cfg.kind = "det" ->
                      /\ status' = FailDet(r)
                      /\ st' = IF r.e = "rise" THEN DetRise(Pc, st, r.dt)
-                              ELSE IF r.e = "fall" THEN DetFall(Pc, st, r.dt) ELSE st
+                              ELSE IF r.e = "fall" THEN DetFall(Pc, st, r.dt)
+                              ELSE IF r.e = "reset" THEN DetInit       \* all history is forgotten
+                              ELSE st
                      /\ UNCHANGED gs
                 [] Cfg.kind = "gen" ->
                      /\ status' = FailGen(r)
                      /\ gs' = IF r.e = "rise" THEN [since |-> 0, n |-> gs.n + 1, high |-> TRUE]
-                              ELSE IF r.e = "fall" THEN [since |-> r.dt, n |-> gs.n, high |-> FALSE] ELSE gs
+                              ELSE IF r.e = "fall" THEN [since |-> r.dt, n |-> gs.n, high |-> FALSE]
+                              ELSE IF r.e = "reset" THEN GsInit        \* starts over: first burst within GenStartLat
+                              ELSE gs
                      /\ UNCHANGED st
                 [] Cfg.kind = "table" ->
                      /\ status' = FailTable(r)
